@@ -116,3 +116,7 @@ REGISTRY["C34"] = ("fn", "c34")
 META["C34"] = dict(technique=_FN_TECH, note="Only-if direction as stated by the property; a handler that is stricter than its configuration is reported as drift, not as a violation.",
     text="Filters.tla: MayOffer(kind, cfg, stream) for echo / forwarding / relay / api-accept / srpc server / pubsub / solicitation handlers; every (configuration, stream) pair over a small "
          "universe (foreign protocols, other local peer, remote peer outside the list) is replayed on the real controllers: offers => MayOffer.")
+REGISTRY["C35"] = ("fn", "c35")
+META["C35"] = dict(technique=_FN_TECH, note="Regexes are taken from a small fixed family; the default-method rule of MatchServeMuxPattern (empty method) is not asserted (ambiguous in the code), lookups always carry a method.",
+    text="Lookup.tla: Answers (iff) and Seen (exactly the first matching prefix removed) for RpcServiceController, InvokerController, HTTPHandlerController and MatchServeMuxPattern over ordered, "
+         "overlapping prefix lists, regexes, explicit lists and server-id patterns; replayed on the real controllers including what the resolved invoker / http.Handler actually receives.")
